@@ -11,6 +11,7 @@ mod c03;
 mod c04;
 mod c06;
 mod c10;
+mod c11;
 mod c12;
 mod c13;
 mod c14;
@@ -77,6 +78,7 @@ fn main() {
     "C07" => c07::run(&ctx),
     "C08" => c08::run(&ctx),
     "C10" => c10::run(&ctx),
+    "C11" => c11::run(&ctx),
     "C12" => c12::run(&ctx),
     "C13" => c13::run(&ctx),
     "C14" => c14::run(&ctx),
